@@ -320,7 +320,7 @@ CHECKS = {
                        "bridge) is called from a closure that records its own function and line; the closure runs under a chain of four "
                        "wrappers; the logger skips n frames; the record (3 formats; root, child and default logger) must name the closure "
                        "(n=0) or the wrapper n levels up with that wrapper's call line.",
-        "bounds": {"quick": "52 entry points x 3 formats x 3 logger kinds x skip 0..2", "thorough": "skip 0..4"},
+        "bounds": {"quick": "54 entry points x 3 formats x 4 logger kinds (root, child, default logger's tree, one of two WithSkip siblings) x skip 0..2", "thorough": "skip 0..4"},
         "outside": "identity between the Go runtime's frame elision/inlining and go/ssa's notion of synthetic wrapper: trusted, cross-validated because every counterexample is replayed natively",
         "assumptions": ["runtime.Callers answered from the engine's call stack"],
         "runs": [
